@@ -22,6 +22,7 @@ import (
 	"github.com/jcmturner/gokrb5/v8/zzverif/vclock"
 	"github.com/jcmturner/gokrb5/v8/zzverif/vrand"
 	"github.com/jcmturner/gokrb5/v8/zzverif/vsched"
+	"github.com/jcmturner/gokrb5/v8/zzverif/vsync"
 )
 
 var spns = map[string]string{"tA": "HTTP/host.test.gokrb5", "tB": "HTTP/host2.test.gokrb5", "tX": "HTTP/host.other.gokrb5"}
@@ -33,6 +34,9 @@ type Scenario struct {
 	Renew   bool       `json:"renewable"`
 	Prelude []string   `json:"prelude"`
 	Threads [][]string `json:"threads"`
+	// Keytab: the client keytab holds several entries (the user's and a newer one of a sibling principal), in file
+	// order oldest first
+	Keytab bool `json:"keytab_with_several_entries,omitempty"`
 }
 
 func scenarios(thorough bool) []Scenario {
@@ -53,6 +57,7 @@ func scenarios(thorough bool) []Scenario {
 		{Name: "print-vs-destroy", NKDC: 1, Prelude: []string{"login", "tA"}, Threads: [][]string{{"print"}, {"destroy"}}},
 		{Name: "cached-ticket-vs-new-ticket", NKDC: 1, Prelude: []string{"login", "tA"}, Threads: [][]string{{"tA"}, {"tB"}}},
 		{Name: "two-requests-for-an-expired-renewable-ticket", NKDC: 1, Renew: true, Prelude: []string{"login", "tA", "advTimer", "advTicketEnd"}, Threads: [][]string{{"tA"}, {"tA"}}},
+		{Name: "login-vs-login-keytab-with-several-entries", NKDC: 1, Keytab: true, Threads: [][]string{{"login"}, {"login"}}},
 		{Name: "getkdcs-2-kdcs", NKDC: 2, Threads: [][]string{{"getkdcs"}, {"getkdcs"}}},
 		{Name: "getkdcs-3-kdcs", NKDC: 3, Threads: [][]string{{"getkdcs"}, {"getkdcs"}}},
 		{Name: "getkdcs-vs-ticket-2-kdcs", NKDC: 2, Prelude: []string{"login"}, Threads: [][]string{{"getkdcs", "getkpasswd"}, {"tA"}}},
@@ -98,6 +103,9 @@ func optsFor(sc Scenario) cworld.Opts {
 		o.RenewLifetime = 3600e9
 		o.TicketLifetime = 300e9
 		o.FreshRenewKey = true // a torn (ticket, key) pair is only observable if renewal changes the key
+	}
+	if sc.Keytab {
+		o.UserInstance = "client.test.gokrb5"
 	}
 	return o
 }
@@ -239,6 +247,12 @@ func (r *run) judge(sc Scenario) [][2]string {
 			if !ok {
 				out = append(out, [2]string{"session-key-and-times-not-issued-together", s.Realm})
 			}
+		}
+	}
+	// the keytab the client was given is only read: it still serialises to the bytes it was loaded from
+	if kt := r.w.Client.Credentials.Keytab(); !hasDestroy && r.w.Keytab != nil && kt != nil {
+		if b, err := kt.Marshal(); err != nil || !bytes.Equal(b, r.w.Keytab) {
+			out = append(out, [2]string{"keytab-modified-by-use", fmt.Sprintf("the client keytab no longer serialises to the bytes it was loaded from (err=%v)", err)})
 		}
 	}
 	if !reflect.DeepEqual(r.w.Config.Realms, r.pristine.Realms) || !reflect.DeepEqual(r.w.Config.LibDefaults, r.pristine.LibDefaults) {
@@ -417,7 +431,15 @@ func RaceBody(reps int) {
 	vclock.Virtual(cworld.T0)
 	vclock.AutoTick = time.Microsecond
 	for _, sc := range scenarios(true) {
-		for rep := 0; rep < reps; rep++ {
+		// repetitions 0..reps-1 run undisturbed; after them one pause is walked over the lock releases the threads of
+		// this scenario perform (every position in the thorough tier, an even spread of at most 3*reps positions in
+		// the quick tier): the k-th release is followed by a pause of vsync.DelayFor
+		nrel, positions := int64(0), []int64{}
+		for rep := 0; rep < reps+len(positions); rep++ {
+			delayAt := int64(-1)
+			if rep >= reps {
+				delayAt = positions[rep-reps]
+			}
 			// the whole repetition (prelude, threads, final Destroy) runs beside a watchdog: a deadlock anywhere in
 			// it is reported instead of hanging the pass
 			var whole sync.WaitGroup
@@ -443,8 +465,13 @@ func RaceBody(reps int) {
 						}
 					}(i, ops)
 				}
+				vsync.ArmDelay(delayAt)
 				close(start)
 				wg.Wait()
+				if n := vsync.Releases(); delayAt < 0 && n > nrel {
+					nrel = n
+				}
+				vsync.ArmDelay(-1)
 				// the invariants are judged on the free-running executions too (a sample, not an enumeration)
 				for _, v := range r.judge(sc) {
 					if !strings.HasPrefix(v[0], "malformed-request") {
@@ -459,6 +486,15 @@ func RaceBody(reps int) {
 			}()
 			engine.WaitOrBlocked(&whole, sc.Name, runs)
 			runs++
+			if rep == reps-1 {
+				max := int64(3 * reps)
+				if reps >= 100 || nrel <= max {
+					max = nrel
+				}
+				for i := int64(0); i < max; i++ {
+					positions = append(positions, i*nrel/max)
+				}
+			}
 		}
 	}
 	fmt.Printf("RACE-RUNS %d\n", runs)
